@@ -257,6 +257,22 @@ Check (eq_refl : run_cycles = fix run_cycles lz_compress cap sigs time vb e cs :
     end
   end).
 
+
+(* a cycle section inside the sequence of sections: `CYC\0`, the 8 bytes of the first time, the cycles, `ECY\0` *)
+Check section_cycles :
+  forall lz_compress cap be sigs cs t8 vb e rest f,
+  length t8 = 8%nat ->
+  cs <> [] -> Forall gdt_ok cs -> Forall (fun c => grecs_ok sigs 0 (gc_recs c) /\ effs_of sigs 0 (gc_recs c) <> None) cs ->
+  (forall c, In c (removelast cs) -> (0 <= gc_dt c)%Z) -> (gc_dt (last cs (mk_gcyc [] [] 0)) < 0)%Z ->
+  consistent sigs vb ->
+  sections lz_compress cap (S f) be sigs vb e (CYC ++ t8 ++ concat (map gcyc_bytes cs) ++ ECY ++ rest)
+  = match run_cycles lz_compress cap sigs (read_int be t8) vb e cs with
+    | Ok (Some (vb', e')) => sections lz_compress cap f be sigs vb' e' rest
+    | Ok None => Ok None
+    | Err => Err
+    | Panic => Panic
+    end.
+
 (* a whole cycle section: several cycles, each `records, 0, signed LEB128 distance to the next time` (negative: the last) *)
 Check cycle_loop_vectors :
   forall (parse_f64 : list byte -> option (list byte)) (lz_compress : list byte -> list byte) (cap : N)
@@ -398,6 +414,7 @@ Print Assumptions cycle_vectors_step.
 Print Assumptions cycle_loop_vectors.
 Print Assumptions cycle_signals_records.
 Print Assumptions cycle_loop_records.
+Print Assumptions section_cycles.
 Print Assumptions snapshot_vectors.
 Print Assumptions ve_set_spec.
 Print Assumptions time_step_spec.
